@@ -75,9 +75,17 @@ type Case struct {
 	Bind  string `json:"bind"`
 	Flat  bool   `json:"flat"`
 	Local bool   `json:"local"`
-	// piped source states and their target names (same length)
+	// piped source states and their target names (same length): pipe i goes
+	// from States[i] to TStates[i].  A source state may occur more than once
+	// (one source state bound into several target states).
 	States  []string `json:"states"`
 	TStates []string `json:"tstates"`
+	// Parts: sizes of the consecutive groups of pipes which are bound by ONE
+	// binding call each (BindMany: one BindMany call per group, Manual: one
+	// handler struct per group); empty = one call for all.  Bind always makes
+	// one call per pipe.  Several calls of one kind between the same two
+	// machines get binding ids from pipes.go which need not differ.
+	Parts []int `json:"parts,omitempty"`
 	Multi   []string `json:"multi"`
 	Gated   bool     `json:"gated"`
 	Slow    bool     `json:"slow"`
@@ -182,6 +190,16 @@ type fwd struct {
 	atStep   bool // its goroutine is the target's processor, parked at the step gate
 }
 
+// pipeRec is one pipe of the bindings under test: binding call B (1-based)
+// pipes source state S; Add / Rem are the target states pipes.go add() /
+// remove() mutate for it.
+type pipeRec struct {
+	B   int      `json:"b"`
+	S   string   `json:"s"`
+	Add []string `json:"add"`
+	Rem []string `json:"rem"`
+}
+
 type Runner struct {
 	c   *Case
 	rng *rand.Rand
@@ -190,13 +208,12 @@ type Runner struct {
 	px       *Proxy
 	bindIds  map[string]bool
 	tmulti   []string
-	addNames [][]string
-	remNames [][]string
+	pipes    []pipeRec
 
 	mu      sync.Mutex
 	recs    []*rec
 	fwds    []*fwd          // by id-1
-	byKey   map[string]*fwd // txId/handler -> forward expected from that handler
+	byKey   map[string][]*fwd // txId/handler -> forwards expected from the handlers of that name
 	curH    *rec
 	curFwd  *fwd
 	calls   map[int64]*fwd        // goroutine -> forwarded call being executed
@@ -363,7 +380,14 @@ func (p *Proxy) forward(op string, e *am.Event, states am.S, args am.A, real fun
 	if inline && r.curFwd != nil {
 		f = r.curFwd
 	} else if e != nil {
-		f = r.byKey[e.TransitionId+"/"+e.Name]
+		// several bindings may have a handler of this name: the calls they fork
+		// are attributed in arrival order (the record carries what was forwarded)
+		for _, c := range r.byKey[e.TransitionId+"/"+e.Name] {
+			if !c.arrived {
+				f = c
+				break
+			}
+		}
 	}
 	if f == nil || f.arrived {
 		// a call the harness cannot attribute to a pipe handler invocation
@@ -496,7 +520,7 @@ func (t *srcTracer) HandlerStart(tx *am.Transition, emitter string, handler stri
 		"fwd": "none", "op": "none", "sts": []string{}, "fargs": false, "read": []string{}})
 	f.h = h
 	r.curH, r.curFwd = h, f
-	r.byKey[tx.Id+"/"+handler] = f
+	r.byKey[tx.Id+"/"+handler] = append(r.byKey[tx.Id+"/"+handler], f)
 }
 
 func (t *srcTracer) HandlerEnd(tx *am.Transition, emitter string, handler string) {
@@ -632,6 +656,11 @@ func (r *Runner) setup() error {
 			continue
 		}
 		tschema[t] = am.State{Multi: multi[c.States[i]]}
+		// the customary definition of an error state; Exception is only ever
+		// added together with it (pipes.go add), so the target still never vetoes
+		if strings.HasPrefix(t, am.PrefixErr) {
+			tschema[t] = am.State{Multi: multi[c.States[i]], Require: am.S{am.StateException}}
+		}
 	}
 	if c.Bind == "BindAny" {
 		for s, st := range sschema {
@@ -648,15 +677,47 @@ func (r *Runner) setup() error {
 	}
 	r.tmulti = append(r.tmulti, am.StateException) // built-in, Multi
 	sort.Strings(r.tmulti)
-	for i := range c.States {
-		t := c.TStates[i]
-		// pipes.add: a target state named Err* is added together with Exception
-		if strings.HasPrefix(t, am.PrefixErr) {
-			r.addNames = append(r.addNames, []string{am.StateException, t})
-		} else {
-			r.addNames = append(r.addNames, []string{t})
+	// the binding calls: groups of consecutive pipes
+	var groups [][]int
+	switch {
+	case c.Bind == "Bind":
+		for i := range c.States {
+			groups = append(groups, []int{i})
 		}
-		r.remNames = append(r.remNames, []string{t})
+	case len(c.Parts) > 0 && (c.Bind == "BindMany" || c.Bind == "Manual"):
+		i := 0
+		for _, n := range c.Parts {
+			var g []int
+			for ; n > 0 && i < len(c.States); n-- {
+				g = append(g, i)
+				i++
+			}
+			groups = append(groups, g)
+		}
+		if i != len(c.States) {
+			return fmt.Errorf("parts %v do not cover %d pipes", c.Parts, len(c.States))
+		}
+	default:
+		var g []int
+		for i := range c.States {
+			g = append(g, i)
+		}
+		groups = append(groups, g)
+	}
+	r.pipes = []pipeRec{}
+	for b, g := range groups {
+		for _, i := range g {
+			t := c.TStates[i]
+			p := pipeRec{B: b + 1, S: c.States[i], Add: []string{t}, Rem: []string{t}}
+			// pipes.add: a target state named Err* is added together with Exception;
+			// pipes.remove takes back the state alone
+			if strings.HasPrefix(t, am.PrefixErr) {
+				p.Add = []string{am.StateException, t}
+			}
+			if c.Bind != "BindAny" {
+				r.pipes = append(r.pipes, p)
+			}
+		}
 	}
 	r.tgt = am.New(ctx, tschema, opts("tgt-"+c.Label))
 	r.px = &Proxy{Machine: r.tgt, r: r, local: c.Local}
@@ -684,7 +745,16 @@ func (r *Runner) setup() error {
 			}
 		}
 	case "BindMany":
-		err = add(pipes.BindMany(r.src, r.px, am.S(c.States), am.S(c.TStates)))
+		for _, g := range groups {
+			var ss_, ts am.S
+			for _, i := range g {
+				ss_ = append(ss_, c.States[i])
+				ts = append(ts, c.TStates[i])
+			}
+			if err = add(pipes.BindMany(r.src, r.px, ss_, ts)); err != nil {
+				return err
+			}
+		}
 	case "BindReady":
 		_, t := one()
 		err = add(pipes.BindReady(r.src, r.px, t, ""))
@@ -705,17 +775,26 @@ func (r *Runner) setup() error {
 	case "Manual":
 		// "Piping Manually" of pkg/states/README.md, optionally with the flat
 		// variants
-		finals := map[string]am.HandlerFinal{}
-		for i, s := range c.States {
-			if c.Flat {
-				finals[s+am.SuffixState] = pipes.AddFlat(r.src, r.px, s, c.TStates[i])
-				finals[s+am.SuffixEnd] = pipes.RemoveFlat(r.src, r.px, s, c.TStates[i])
-			} else {
-				finals[s+am.SuffixState] = pipes.Add(r.src, r.px, s, c.TStates[i])
-				finals[s+am.SuffixEnd] = pipes.Remove(r.src, r.px, s, c.TStates[i])
+		for b, g := range groups {
+			finals := map[string]am.HandlerFinal{}
+			for _, i := range g {
+				s := c.States[i]
+				if c.Flat {
+					finals[s+am.SuffixState] = pipes.AddFlat(r.src, r.px, s, c.TStates[i])
+					finals[s+am.SuffixEnd] = pipes.RemoveFlat(r.src, r.px, s, c.TStates[i])
+				} else {
+					finals[s+am.SuffixState] = pipes.Add(r.src, r.px, s, c.TStates[i])
+					finals[s+am.SuffixEnd] = pipes.Remove(r.src, r.px, s, c.TStates[i])
+				}
+			}
+			id := "Manual-" + c.Label
+			if b > 0 {
+				id += "-" + strconv.Itoa(b+1)
+			}
+			if err = add(r.src.HandlersBind(structOf(finals), am.BindOpts{Id: id})); err != nil {
+				return err
 			}
 		}
-		err = add(r.src.HandlersBind(structOf(finals), am.BindOpts{Id: "Manual-" + c.Label}))
 	default:
 		return fmt.Errorf("unknown bind %q", c.Bind)
 	}
@@ -1100,7 +1179,7 @@ func (r *Runner) quiesce() {
 // Run executes one case on fresh machines.
 func Run(c *Case) *Outcome {
 	r := &Runner{c: c, rng: rand.New(rand.NewSource(c.Seed)),
-		bindIds: map[string]bool{}, byKey: map[string]*fwd{}, calls: map[int64]*fwd{},
+		bindIds: map[string]bool{}, byKey: map[string][]*fwd{}, calls: map[int64]*fwd{},
 		muts: map[*am.Mutation]*fwd{}, unres: map[*am.Mutation]*rec{}, notify: make(chan struct{}, 1)}
 	r.out.Label = c.Label
 	r.gated.Store(c.Gated)
@@ -1113,7 +1192,7 @@ func Run(c *Case) *Outcome {
 		"states": nz(c.States), "tstates": nz(c.TStates), "multi": nz(c.Multi),
 		"gated": c.Gated, "slow": c.Slow, "mode": modeOf(c), "addonly": c.Bind == "BindErr",
 		"plain":  c.Bind != "BindConnected" && c.Bind != "BindErr",
-		"tmulti": r.tmulti, "addnames": r.addNames, "remnames": r.remNames})
+		"tmulti": r.tmulti, "pipes": r.pipes, "parts": append([]int{}, c.Parts...)})
 	r.mu.Unlock()
 	r.slow.Store(c.Slow)
 	for _, cmd := range c.Script {
